@@ -259,3 +259,24 @@ def run(chk, repo):
     from rules.shared import optname
     chk.clauses.append('C15.i (shared R-THREAD) an option value bound to a name that is itself a CLI option carries that very option')
     optname(chk, repo, 'C15.i', ['cli.parse_star_fusion', 'cli.parse_arriba', 'cli.parse_fusion_catcher'], floor=0)
+    # ------------------------------------------------------------------ j: unversioned gene ids resolve to the primary (non-PAR_Y) copy
+    from sa import sem as _sem15
+    chk.rule('C15.j', 'R-GUARD: the unversioned-id mapper never replaces a mapped gene by its _PAR_Y copy', 1)
+    chk.clauses.append('C15.j gene ids without version (FusionCatcher) resolve to the primary copy of a PAR gene: a _PAR_Y duplicate never overwrites an existing mapping')
+    cm = repo.func('gtf.GenomicAnnotation:GenomicAnnotation.create_gene_id_version_mapper')
+    chk.uses(cm)
+    ncm = _sem15.nf(repo, cm)
+    loops_ = [l for l in ast.walk(ncm) if isinstance(l, ast.For) and isinstance(l.target, ast.Name)]
+    stores = []
+    for l in loops_:
+        stores += [(st, fx, l) for st, fx in _sem15.facts_in_iteration(ncm, l, lambda st: isinstance(st, ast.Assign) and isinstance(st.targets[0], ast.Subscript)
+                                                                           and unparse(st.targets[0].value) == 'self.gene_id_version_mapper')]
+    okj = bool(stores)
+    for st, fx, l in stores:
+        K = unparse(st.targets[0].slice)
+        Vv = unparse(st.value)
+        if fx is not None and fx.known(f"{K} in self.gene_id_version_mapper and '_PAR_Y' in {Vv}") is not False:
+            okj = False
+    chk.ob('C15.j', "mapper[unversioned] is (re)assigned only when it is new or the incoming id is not a _PAR_Y copy", cm.where, okj,
+           "a _PAR_Y copy can overwrite the mapping of its chrX gene: FusionCatcher fusions of PAR genes are emitted on the N-masked chrY copy (no junction peptides)",
+           key=cm.qual + '::par-y-first-wins', fn=cm.qual)
